@@ -110,7 +110,7 @@ def normalise (parser : String) (kind : String) (c : Text) : Except String (Opti
     else .ok none
   | "markdown_parser" =>
     if kind == "link_reference_definition" then .ok (mdLink c)
-    else if kind == "md_html_comment" then .ok (some c)
+    else if kind == "md_html_comment" then (xml c).map some
     else .ok none
   | _ => .error s!"unknown parser {parser}"
 
